@@ -306,6 +306,12 @@ example : projAns 0 (runInst [parseVia 2 ({ gtype := "POINT", enc := exPointsEnc
     [(1, .whole 2), (1, .whole 3), (0, .nth 3 2), (1, .nth 1 2), (0, .whole 2)]) =
     [.ok (.nth [[5, 6]]), .ok (.whole [[[1, 2]], [[3, 4]], [[5, 6]]])] := by decide
 
+/-- trip-wire on the regenerated flag `Gen.decodedSharedZReadOnly` (the array a parsed group rebuilds with the common z column
+is made read-only before it is cached — /repo fix; without it a caller's in-place edit of a returned array changed every later
+answer).  The behaviour itself is carried by tie C: in the `history`, `instance-history` and measurement streams the harness
+overwrites every array it is allowed to write to between reads (histogram `scribbled_arrays`). -/
+theorem tie_decoded_arrays_read_only : decodedSharedZReadOnly = true := rfl
+
 /-! ## stored attributes (L1) -/
 
 /-- What is written: all coordinate values row by row (two columns when z is shared), the shared z in
